@@ -235,6 +235,12 @@ func c02eval(r *Rec, mu *sync.Mutex, v *lh.VerifNode, cm int, proof []byte, bloc
 	p := guard(func() {
 		err = v.W.ValidateBlockConsensus(context.Background(), block, proof, block0(block), prev, soft)
 	})
+	// the same call without / with an unrelated previous block (a syncing consumer may not have it): only "never panics"
+	// is checked here (the committee then depends on the fake Membership's answer for another reference time)
+	pPrev := guard(func() {
+		v.W.ValidateBlockConsensus(context.Background(), block, proof, nil, prev, soft)
+		v.W.ValidateBlockConsensus(context.Background(), block, proof, kit.NewBlock(c02height+7, "unrelated"), prev, soft)
+	})
 	var ids []primitives.MemberId
 	p2 := guard(func() { ids, _ = lh.GetMemberIdsFromBlockProof(proof) })
 	want, why := c02ref(c02committees[cm], proof, block, prev, soft)
@@ -244,6 +250,10 @@ func c02eval(r *Rec, mu *sync.Mutex, v *lh.VerifNode, cm int, proof []byte, bloc
 	r.Case(class)
 	if p != "" {
 		r.Bad("C02:validate-panics", "ValidateBlockConsensus panics: "+p, cs)
+		return false
+	}
+	if pPrev != "" {
+		r.Bad("C02:validate-panics", "ValidateBlockConsensus panics when the previous block is missing or unrelated: "+pPrev, cs)
 		return false
 	}
 	if p2 != "" {
